@@ -313,7 +313,7 @@ func cmdCheck(args []string) int {
 	known := loadKnownFindings()
 	violations := 0
 	var lines []string
-	os.MkdirAll(filepath.Join(verifDir(), "replays", id), 0o755)
+	os.MkdirAll(replayDir(id), 0o755)
 	unreliable := map[string]bool{}
 	for _, r := range results {
 		if len(r.Errors) > 0 || len(r.Drift) > 0 {
@@ -364,7 +364,7 @@ func cmdCheck(args []string) int {
 		boundedOut = append(boundedOut, map[string]any{"name": b.Name, "bound": b.Bound, "passed": ok, "wall_s": secs, "label": "bounded (not counted as proved)"})
 		if !ok {
 			violations++
-			path := filepath.Join(verifDir(), "replays", id, "bounded-"+sanitize(b.Name)+".txt")
+			path := filepath.Join(replayDir(id), "bounded-"+sanitize(b.Name)+".txt")
 			os.WriteFile(path, []byte(out), 0o644)
 			lines = append(lines, fmt.Sprintf("VIOLATION property=%s replay=%s bounded=%s", id, path, b.Name))
 		}
@@ -482,9 +482,18 @@ func runCovers(results []*FuncResult, work string) []coverResult {
 	return out
 }
 
+// replayDir: where violation records go: /verif/replays/<id>, or a scratch directory for self-test runs on patched copies.
+func replayDir(id string) string {
+	if os.Getenv("VERIF_NOEVIDENCE") != "" {
+		return filepath.Join(os.TempDir(), "govc-selftest-replays", id)
+	}
+	return filepath.Join(verifDir(), "replays", id)
+}
+
 func writeReplayFile(id string, o *Obl, results []*FuncResult) string {
 	h := sha256.Sum256([]byte(o.Name))
-	path := filepath.Join(verifDir(), "replays", id, fmt.Sprintf("%x.json", h[:6]))
+	os.MkdirAll(replayDir(id), 0o755)
+	path := filepath.Join(replayDir(id), fmt.Sprintf("%x.json", h[:6]))
 	model := o.Model
 	if len(model) > 200000 {
 		model = model[:200000]
